@@ -3,7 +3,7 @@ from __future__ import annotations
 
 import ast
 
-from ..engine import AnalysisError, PropertySpec, norm
+from ..engine import AnalysisError, MechanismMissing, PropertySpec, norm
 from ..pyutil import call_name, calls, const_str, dotted, is_name, literal, parent, subscript_key, walk_local
 
 GEN = "src/pymoca/backends/casadi/generator.py"
@@ -75,7 +75,7 @@ def r12_1(ctx, rep):
         rep.ob(R, GEN + ":" + fn, "read options[%r]" % key, ok,
                "a representation option may only select a constant mode stored on the generator; here it flows into `%s`" % norm(parent(rd))[:90])
     if set(derived.values()) != {"unroll_loops", "inline_functions"}:
-        raise AnalysisError(R, "mode attributes derived from unroll_loops/inline_functions not found in Generator.__init__ (found %s)" % derived)
+        raise MechanismMissing(R, "mode attributes derived from unroll_loops/inline_functions not found in Generator.__init__ (found %s)" % derived)
     for n_ in ast.walk(gmod):
         if isinstance(n_, ast.Attribute) and n_.attr in derived and isinstance(n_.ctx, ast.Load):
             opt = derived[n_.attr]
@@ -128,7 +128,7 @@ def r12_1(ctx, rep):
                 n += 1
                 rep.ob(R, MODEL + ":" + fn, "use of _expand_mx_func", ok, "the wrapper may only wrap the ca.Function a function property returns")
     if n < 15:
-        raise AnalysisError(R, "only %d option uses found, expected >= 15" % n)
+        raise MechanismMissing(R, "only %d option uses found, expected >= 15" % n)
 
 
 def _tri(test, env):
@@ -219,7 +219,7 @@ def r12_2(ctx, rep):
 
         visit(fn.body, True)
     if n < 4:
-        raise AnalysisError(R, "fewer than 4 guards mentioning a representation option found")
+        raise MechanismMissing(R, "fewer than 4 guards mentioning a representation option found")
 
 
 @SPEC.rule(
@@ -256,7 +256,7 @@ def r12_3(ctx, rep):
            "tainted control flow / model store: %s" % bad)
     rep.extra["R12.3_tests_and_stores_checked"] = checked
     if checked < 100:
-        raise AnalysisError(R, "only %d tests/stores inspected in generator.py" % checked)
+        raise MechanismMissing(R, "only %d tests/stores inspected in generator.py" % checked)
 
 
 # -- seeded variants ---------------------------------------------------------
